@@ -196,6 +196,18 @@ func c01Outcome(c *Ctx, fq, spType, code, pointer string) {
 			continue
 		}
 		if i, ok := constInt(r.Results[0]); !ok || i != 2 {
+			// `return p.helper(code)`: a method of the same receiver that only ever returns
+			// pSlowPath and builds the request itself, in terms of its parameters
+			if got, stored, isHelper := slowPathHelper(c, v, r.Results[0]); isHelper {
+				n++
+				ok2 := stored && got["local:complit.spType"] == spType && got["local:complit.code"] == code
+				if pointer != "" {
+					ok2 = ok2 && got["local:complit.pointer"] == pointer
+				}
+				c.Check(ok2, "R7-failure-outcome", fmt.Sprintf("%s:slow-path-return", v.Name()), r.Pos(),
+					fmt.Sprintf("slowPathRequest (built by a helper) %v stored=%v; required spType=%s code=%s pointer=%s",
+						got, stored, spType, code, pointer))
+			}
 			continue
 		}
 		n++
